@@ -69,3 +69,13 @@ where
         }
     }
 }
+
+/// Stub for `PacketReader::packet_available` (drive-loop harnesses): number of buffered packets is a
+/// ghost counter decremented by the `process_received_packet` stub.
+pub(crate) static mut PKT_AVAIL: u8 = 0;
+pub(crate) fn st_packet_available<'a>(_r: &PacketReader<'a>) -> bool
+where
+    'a: 'a,
+{
+    unsafe { PKT_AVAIL > 0 }
+}
